@@ -68,35 +68,55 @@ def stable_effects(pcode: str) -> tuple[set[str], set[str]]:
             {c for c, k in cmds.items() if k == 1 and c not in unstable_c})
 
 
+ACTIVE_PRIORITY = ["nested-interrupt", "in-scope:block", "in-scope:watch", "in-scope:alarm", "in-scope:macro",
+                   "in-scope:other", "injected-code", "command-executing", "interrupt-registered", "main-sequence"]
+
+
 def active_at(run) -> str:
-    """What the interpreter was busy with at the moment of an edit (most specific first)."""
+    """What the interpreter was busy with at the moment of an edit: the first label of ACTIVE_PRIORITY that applies."""
     interp = run.engine.interpreter
     nodes = list(interp._program.get_all_nodes())
     by_id = {n.id: n for n in nodes}
     cls = lambda n: type(n).__name__          # noqa: E731
+    labels = {"main-sequence"}
     if any(cls(i.node) == "InjectedNode" for i in interp.interrupts):
-        return "injected-code"
+        labels.add("injected-code")
     # a Watch/Alarm inside a Watch/Alarm body whose interrupt is registered
     if any(getattr(n, "interrupt_registered", False) and any(cls(q) in ("WatchNode", "AlarmNode") for q in n.parents)
            for n in nodes if cls(n) in ("WatchNode", "AlarmNode")):
-        return "nested-interrupt"
+        labels.add("nested-interrupt")
     # a Block/Watch/Alarm/Macro scope is active (Scope Time tag's stack beyond the program scope)
     stack = [i for i in getattr(run.engine.tags["Scope Time"], "_stack", []) if i in by_id and cls(by_id[i]) != "ProgramNode"]
     if stack:
-        kind = {"BlockNode": "block", "WatchNode": "watch", "AlarmNode": "alarm", "MacroNode": "macro",
-                "CallMacroNode": "macro"}.get(cls(by_id[stack[-1]]), "other")
-        return "in-scope:" + kind
+        labels.add("in-scope:" + {"BlockNode": "block", "WatchNode": "watch", "AlarmNode": "alarm", "MacroNode": "macro",
+                                  "CallMacroNode": "macro"}.get(cls(by_id[stack[-1]]), "other"))
     cm = run.engine._command_manager
     if cm is not None and any(getattr(r, "source", "") != "user" and r.name in run.uod.command_instances
                               for r in cm.cmd_executing):
-        return "command-executing"
+        labels.add("command-executing")
     if interp.interrupts:
-        return "interrupt-registered"
-    return "main-sequence"
+        labels.add("interrupt-registered")
+    return min(labels, key=ACTIVE_PRIORITY.index)
 
 
-ACTIVE_PRIORITY = ["nested-interrupt", "in-scope:block", "in-scope:watch", "in-scope:alarm", "in-scope:macro",
-                   "in-scope:other", "injected-code", "command-executing", "interrupt-registered", "main-sequence"]
+OPENERS = ("Block", "Watch", "Alarm", "Macro")
+
+
+def well_indented(pcode: str) -> bool:
+    """The text is a structured method: indentation in steps of four, deeper only directly below a Block / Watch /
+    Alarm / Macro line.  (Edit scripts can produce other texts; the comparison with 'the final method loaded from
+    the start' is only made for structured ones.)"""
+    prev_ind, prev_head = 0, None
+    for ln in pcode.splitlines():
+        if not ln.strip() or ln.strip().startswith("#"):
+            continue
+        ind = len(ln) - len(ln.lstrip(" "))
+        m = _HEAD.match(ln.split("#")[0])
+        head = m.group(1) if m else "?"
+        if ind % 4 or ind > prev_ind + 4 or (ind > prev_ind and prev_head not in OPENERS):
+            return False
+        prev_ind, prev_head = ind, head
+    return True
 
 
 def runlog_items(run) -> dict[str, tuple[str, str]]:
@@ -135,7 +155,7 @@ def run_with_edits(pcode: str, edits: list[tuple[int, list]], total: int, horizo
             mm = run.engine.method_manager
             before = mm.get_method_state()
             cur = [(ln.id, ln.content) for ln in mm._method.lines]
-            new = apply_edit_script(cur, script)
+            new = apply_edit_script(cur, script, keep_indent=True)
             old_map = dict(cur)
             new_map = dict(new)
             # what the interpreter has really started (the method manager's own view is detached after a first edit)
@@ -237,7 +257,7 @@ def oracle(case) -> list[Failure]:  # noqa: C901
         if e["res"] == "ok":
             first = False
     premise = not any(e["changed_started"] or e["deleted_started"] for e in accepted)
-    if accepted and premise:
+    if accepted and premise and well_indented(a["final_pcode"]):
         # (C, D) compare with the final method loaded from the start
         from harness.engine_run import EngineRun
         ref = EngineRun(a["final_pcode"])
@@ -329,8 +349,8 @@ def gen_oracle_cases(ctx: Check, n: int) -> list[dict]:
     rng = ctx.rng
     out = [WITNESS] + [k["witness"] for k in ctx.known if k.get("witness")] + template_cases()
     for _ in range(n):
-        pcode, _ = gen_program(rng, features={"mark", "wait", "cmd", "block", "watch", "thr", "macro"}, max_lines=8, max_depth=2)
-        n_edits = rng.choice([1, 1, 1, 2])
+        pcode, _ = gen_program(rng, features={"mark", "wait", "cmd", "block", "watch", "alarm", "thr", "macro"}, max_lines=8, max_depth=2)
+        n_edits = rng.choice([1, 1, 1, 2, 2, 3])
         edits = sorted((rng.randrange(2, 40), gen_edit_script(rng)) for _ in range(n_edits))
         c = {"pcode": pcode, "edits": [list(e) for e in edits], "total": 140}
         if rng.random() < 0.25:
